@@ -836,9 +836,8 @@ func collapseKeyEval(c *kit.Ctx, cf *kit.Func, loop *ast.RangeStmt, elem types.O
 				if !isC || cs != "" {
 					continue
 				}
-				sel, isSel := ast.Unparen(st.Resolve(pr[0])).(*ast.SelectorExpr)
-				if !isSel || isElem(sel.X) {
-					continue
+				if sel, isSel := ast.Unparen(st.Resolve(pr[0])).(*ast.SelectorExpr); isSel && isElem(sel.X) {
+					continue // the element's own key: the rule's atom
 				}
 				switch v := valOf(pr[0], s); {
 				case v == "K":
@@ -1052,8 +1051,31 @@ func c01Collapse(c *kit.Ctx, m *storeModel, r5 *kit.Rule) {
 	}
 	// the range loop over *recv and its element
 	var loop *ast.RangeStmt
+	// the batch: *recv, or a local defined once as *recv
+	isBatchExpr := func(x ast.Expr) bool {
+		if _, ok := ast.Unparen(x).(*ast.StarExpr); ok {
+			return true
+		}
+		if o := kit.ObjOf(info, x); o != nil {
+			n := 0
+			isStar := false
+			ast.Inspect(cf.Body, func(y ast.Node) bool {
+				if as, ok := y.(*ast.AssignStmt); ok && len(as.Lhs) == len(as.Rhs) {
+					for i, l := range as.Lhs {
+						if kit.ObjOf(info, l) == o {
+							n++
+							_, isStar = ast.Unparen(as.Rhs[i]).(*ast.StarExpr)
+						}
+					}
+				}
+				return true
+			})
+			return n == 1 && isStar
+		}
+		return false
+	}
 	for _, rs := range cf.SliceLoops(cf.Body) {
-		if _, ok := ast.Unparen(rs.X).(*ast.StarExpr); ok && loop == nil && kit.LoopElemVar(info, rs) != nil {
+		if isBatchExpr(rs.X) && loop == nil && kit.LoopElemVar(info, rs) != nil {
 			loop = rs
 		}
 	}
@@ -1102,9 +1124,54 @@ func c01Collapse(c *kit.Ctx, m *storeModel, r5 *kit.Rule) {
 		r5.Ob(cf, loop, "keep newest", "comma-ok lookup").Undecided("no `v, ok := m[k]` lookup")
 		return
 	}
+	// single-definition locals are looked through (keptTime := in[kept].Time)
+	localDef := func(e ast.Expr) ast.Expr {
+		for d := 0; d < 2; d++ {
+			o := kit.ObjOf(info, e)
+			if o == nil {
+				return e
+			}
+			var def ast.Expr
+			n := 0
+			ast.Inspect(cf.Body, func(y ast.Node) bool {
+				if as, ok := y.(*ast.AssignStmt); ok && len(as.Lhs) == len(as.Rhs) {
+					for i, l := range as.Lhs {
+						if kit.ObjOf(info, l) == o {
+							n++
+							def = as.Rhs[i]
+						}
+					}
+				}
+				return true
+			})
+			if n != 1 || def == nil {
+				return e
+			}
+			e = def
+		}
+		return e
+	}
+	// isWho: e denotes the held entry (the comma-ok value, or the batch element at the held index) / the current element
+	isWho := func(e ast.Expr, who types.Object) bool {
+		e = ast.Unparen(e)
+		if kit.ObjOf(info, e) == who {
+			return true
+		}
+		if who == elem && kit.LoopElem(info, loop, e) {
+			return true
+		}
+		if ix, ok := e.(*ast.IndexExpr); ok && who == existing && kit.ObjOf(info, ix.Index) == existing && kit.SameExpr(info, ix.X, loop.X) {
+			return true
+		}
+		return false
+	}
 	timeOf := func(e ast.Expr, who types.Object) bool {
-		sel, ok := ast.Unparen(e).(*ast.SelectorExpr)
-		return ok && sel.Sel.Name == "Time" && kit.ObjOf(info, sel.X) == who
+		e = ast.Unparen(e)
+		if _, isSel := e.(*ast.SelectorExpr); !isSel {
+			e = ast.Unparen(localDef(e))
+		}
+		sel, ok := e.(*ast.SelectorExpr)
+		return ok && sel.Sel.Name == "Time" && isWho(sel.X, who)
 	}
 	for _, val := range []struct {
 		found bool
@@ -1142,7 +1209,8 @@ func c01Collapse(c *kit.Ctx, m *storeModel, r5 *kit.Rule) {
 		st.OnNode = func(n ast.Node, s kit.S) []kit.S {
 			if as, ok := n.(*ast.AssignStmt); ok && len(as.Lhs) == 1 && s.Get("it") == "1" {
 				if ix, ok := ast.Unparen(as.Lhs[0]).(*ast.IndexExpr); ok && kit.ObjOf(info, ix.X) == mapVar {
-					if kit.ObjOf(info, as.Rhs[0]) == elem {
+					// the element itself, or (for a map of indices) the element's index
+					if kit.ObjOf(info, as.Rhs[0]) == elem || (loop.Key != nil && kit.ObjOf(info, as.Rhs[0]) != nil && kit.ObjOf(info, as.Rhs[0]) == kit.ObjOf(info, loop.Key)) {
 						return []kit.S{s.Set("store", "1")}
 					}
 					return []kit.S{s.Set("store", "other")}
